@@ -25,6 +25,11 @@ if TYPE_CHECKING:
     )
 
 
+class _LabelDeclaration(str):
+    """Name of a label declared on its own line. Distinguishes e.g. the label `nop:` from the instruction `nop`,
+    which both reach the later passes as plain strings."""
+
+
 class RiscvParser(Parser):
     """A parser for RISC-V programs. It is capable of turning a text form program into instruction objects."""
 
@@ -352,6 +357,9 @@ class RiscvParser(Parser):
                 temp.append((n, l, p[1]))
                 assert isinstance(p[0], str)
                 self.in_line_labels[n] = p[0]
+            elif not isinstance(p, str) and "label_declaration" in p:
+                # a label on its own line may be spelled like ecall, ebreak or nop
+                temp.append((n, l, _LabelDeclaration(p[0])))
             else:
                 temp.append((n, l, p[0]))
         self.text = temp
@@ -444,7 +452,7 @@ class RiscvParser(Parser):
 
         for line_number, line, line_parsed in self.text:
             index = self.text.index((line_number, line, line_parsed))
-            if line_parsed == "nop":
+            if line_parsed == "nop" and not isinstance(line_parsed, _LabelDeclaration):
                 self.text[index] = (
                     line_number,
                     line,
@@ -647,7 +655,7 @@ class RiscvParser(Parser):
 
         for line_number, line, line_parsed in self.text:
             # line is a label
-            if (
+            if isinstance(line_parsed, _LabelDeclaration) or (
                 isinstance(line_parsed, str)
                 and line_parsed != "ecall"
                 and line_parsed != "ebreak"
@@ -682,6 +690,8 @@ class RiscvParser(Parser):
         address_count: int = self.start_address
 
         for line_number, line, line_parsed in self.text:
+            if isinstance(line_parsed, _LabelDeclaration):
+                continue
             if isinstance(line_parsed, str):
                 # skip if instruction_parsed is a label, but do not skip ecall/ebreak
                 if line_parsed == "ecall":
